@@ -587,10 +587,14 @@ fn Q_nrb_non_biomass_an(
 
     if !dhw_used_by_cr_no_aux_or_low_scop.is_empty() {
         // Energía usada en vectores nearby que no son biomasa
-        for (carrier, us) in dhw_used_by_cr_no_aux_or_low_scop {
-            if carrier.is_nearby() && *carrier != BIOMASA && *carrier != BIOMASADENSIFICADA {
+        // (en orden fijo de vectores, para que la suma no dependa del orden de iteración del mapa)
+        let mut carriers: Vec<Carrier> = dhw_used_by_cr_no_aux_or_low_scop.keys().copied().collect();
+        carriers.sort();
+        for carrier in carriers {
+            let us = dhw_used_by_cr_no_aux_or_low_scop[&carrier];
+            if carrier.is_nearby() && carrier != BIOMASA && carrier != BIOMASADENSIFICADA {
                 tot += us;
-                ren += us * get_fpA_del_ren_fraction(*carrier, &ep.wfactors)?;
+                ren += us * get_fpA_del_ren_fraction(carrier, &ep.wfactors)?;
             }
         }
     }
